@@ -5,7 +5,7 @@ from .. import hirx as H
 from ..flow import ExprBuilder, mentions_field, mentions_call, is_call, is_field, walk, show, cond_switches, \
     guarded, seed_after_call, Sccp, I, V, X, strip, value_set
 from ..graph import field_rw, field_rw_deep
-from ..facts import op_const, op_place, fields_of_place
+from ..facts import op_const, op_place, fields_of_place, place_key
 from .. import wire as W
 from . import c03
 
@@ -394,50 +394,61 @@ def mode_rule(ctx, r):
     facts = ctx.facts
     BD = "rg::flags::hiargs::BinaryDetection"
     f = facts.fn(BD + "::from_low_args")
-    env = H.LetEnv(f.hir)
-    st = [x for x in H.find(f.hir, lambda x: x.get("k") == "struct" and x.get("adt") == BD)]
-    if len(st) != 1:
+    # Value table on the MIR: rows (low.binary ∈ BinaryMode, low.null_data ∈ {0,1}); the three constructors of the searcher's
+    # BinaryDetection answer with their own name; the outcome is what the BinaryDetection value is built from.
+    from ..flow import table
+    LOW_ = "rg::flags::lowargs::LowArgs"
+    BM = "rg::flags::lowargs::BinaryMode"
+    G = "grep_searcher::searcher::BinaryDetection::"
+    aggs = [(bb, st_) for bb, j_, st_ in f.stmts() if st_["k"] == "assign" and st_["rv"]["k"] == "agg" and st_["rv"].get("adt") == BD]
+    if not aggs or any(set(a_[1]["rv"].get("fields", [])) != {"explicit", "implicit"} for a_ in aggs):
         r.bad("from_low_args", "anchor-missing: BinaryDetection literal", fn=f)
     else:
-        fields = {fl["name"]: fl["e"] for fl in st[0]["fields"]}
-        # atoms of `none` / `convert`
-        lets = {}
-        for x in H.walk(f.hir):
-            if isinstance(x, dict) and x.get("k") == "let" and x.get("pat", {}).get("k") == "bind":
-                lets[x["pat"]["name"]] = x["init"]
-        none_e, conv_e = lets.get("none"), lets.get("convert")
-
-        def is_matches(e, variant):
-            e = H.strip(e)
-            return e.get("k") == "match" and H.canon(e["scrut"]) == "low.binary" and \
-                any(H.canon_pat(a["pat"]).endswith("BinaryMode::" + variant) and H.canon(a["body"]) == "true" for a in e["arms"])
-        ok_none = none_e is not None and H.strip(none_e).get("k") == "bin" and H.strip(none_e)["op"] == "Or" and \
-            is_matches(H.strip(none_e)["a"], "AsText") and H.canon(H.strip(none_e)["b"]) == "low.null_data"
-        ok_conv = conv_e is not None and is_matches(conv_e, "SearchAndSuppress")
-        if ok_none:
+        modes = facts.variants(BM)
+        rows_ok = {"none": True, "convert": True}
+        for row, sx in table(facts, f, fields={(LOW_, "binary"): [V(m_, None) for m_ in modes], (LOW_, "null_data"): [I(0), I(1)]},
+                             calls={G + "none": [V("none", None)], G + "convert": [V("convert", None)], G + "quit": [V("quit", None)]}):
+            mode = row[("field", (LOW_, "binary"))][1]
+            nd = row[("field", (LOW_, "null_data"))][1]
+            none = mode == "AsText" or bool(nd)
+            conv = mode == "SearchAndSuppress"
+            built = set()
+            for bb0, st0 in aggs:
+                if bb0 not in sx.exec_blocks:
+                    continue
+                # replay the block up to the literal
+                env_ = dict(sx.env_in.get(bb0, {}))
+                for st_ in f.blocks[bb0]["stmts"]:
+                    if st_ is st0:
+                        break
+                    if st_["k"] == "assign":
+                        sx._write(env_, place_key(st_["place"]), sx._rvalue(env_, st_["rv"]))
+                got = {fl: sx._operand(env_, op_) for fl, op_ in zip(st0["rv"]["fields"], st0["rv"]["ops"])}
+                built.add((got["explicit"][1] if got.get("explicit") and got["explicit"][0] == "v" else None,
+                           got["implicit"][1] if got.get("implicit") and got["implicit"][0] == "v" else None))
+            ex, im = next(iter(built)) if len(built) == 1 else (None, None)
+            wex = "none" if none else "convert"
+            wim = "none" if none else ("convert" if conv else "quit")
+            key = "table|binary=%s,null_data=%d" % (mode, nd)
+            if ex == wex and im == wim:
+                r.ok(key, "explicit=%s implicit=%s" % (ex, im), fn=f)
+            else:
+                r.bad(key, "detection for --binary mode %s, --null-data %s is explicit=%s implicit=%s (specified %s / %s)"
+                      % (mode, bool(nd), ex, im, wex, wim), fn=f, construct="table")
+                if (ex == "none") != none or (im == "none") != none:
+                    rows_ok["none"] = False
+                if (im == "convert") != (conv and not none):
+                    rows_ok["convert"] = False
+            if ex == "quit":
+                r.bad("explicit-quit", "an explicitly named file can be dropped by binary detection (explicit = quit)", fn=f)
+        if rows_ok["none"]:
             r.ok("none", "none ≡ --text ∨ --null-data", fn=f)
         else:
-            r.bad("none", "`none` is no longer AsText ∨ null_data", fn=f, construct="none")
-        if ok_conv:
+            r.bad("none", "detection is no longer off exactly under AsText ∨ null_data", fn=f, construct="none")
+        if rows_ok["convert"]:
             r.ok("convert", "convert ≡ --binary", fn=f)
         else:
-            r.bad("convert", "`convert` is no longer SearchAndSuppress", fn=f)
-        G = "grep_searcher::searcher::BinaryDetection::"
-        envd = None
-        for none, conv in itertools.product([False, True], repeat=2):
-            val = {"none": none, "convert": conv}
-            ex = H.decide(fields["explicit"], val, _NoInline(env, {"none", "convert"}))
-            im = H.decide(fields["implicit"], val, _NoInline(env, {"none", "convert"}))
-            wex = G + "none()" if none else G + "convert(0)"
-            wim = G + "none()" if none else (G + "convert(0)" if conv else G + "quit(0)")
-            key = "table|none=%d,convert=%d" % (none, conv)
-            if ex == wex and im == wim:
-                r.ok(key, "explicit=%s implicit=%s" % (ex.split("::")[-1], im.split("::")[-1]), fn=f)
-            else:
-                r.bad(key, "detection for none=%s convert=%s is explicit=%s implicit=%s" % (none, conv, ex, im), fn=f,
-                      construct="table")
-            if "quit" in ex:
-                r.bad("explicit-quit", "an explicitly named file can be dropped by binary detection (explicit = quit)", fn=f)
+            r.bad("convert", "implicit detection is no longer `convert` exactly under SearchAndSuppress", fn=f)
     perfile_rule(ctx, r)
     g = facts.fn("grep_searcher::searcher::Searcher::set_binary_detection")
     _, w, _ = field_rw(g)
